@@ -7,6 +7,8 @@ CONSTANTS
   MaxBatches = 3
   MaxOps = 4
   StaleFill = FALSE
+  FillOverwrite = FALSE
+  NoNegativeEntry = FALSE
   Gen = FALSE
 SYMMETRY Sym
 VIEW view
